@@ -663,4 +663,11 @@ def run(ck):
                 self.o.ob('R6.6', 'C05:' + key, ok, loc, detail + ' [a body with a path returning no value has type void and is rejected here]', nontrivial, fn)
             if rule == 'R5.7':
                 self.o.ob('R6.6', 'C05:' + key, ok, loc, detail, nontrivial, fn)
-    c05.run(Sub(ck))
+            # the fold of the return types is what rejects a body that returns a value on one path and nothing on another: void
+            # must stay incompatible with every other type, and void must not be assignable to a value slot
+            if (rule == 'R5.3' and key.startswith('deduce|') and 'void' in key[7:].split(',')) or (rule == 'R5.1' and key.startswith('is_assignable|') and key.rstrip().endswith('<-void')):
+                self.n_void = getattr(self, 'n_void', 0) + 1
+                self.o.ob('R6.6', 'C05:' + key, ok, loc, detail + ' [void on one path and a value on another must not pass as a value function]', nontrivial, fn)
+    sub5 = Sub(ck)
+    c05.run(sub5)
+    ck.floor('R6.6', getattr(sub5, 'n_void', 0), 55, 'shared C05 cells with void on one side')
